@@ -271,6 +271,29 @@ def value_root(b, operand, depth=14):
     return l
 
 
+def borrowed_local(b, operand, depth=8):
+    """the local a reference operand borrows: through reborrows and deref / as_mut_slice views (`&mut types` -> `&mut Vec` -> `&mut [T]`),
+    not through copies of the value"""
+    if operand['k'] not in ('copy', 'move'): return None
+    l = operand['pl']['l']
+    for _ in range(depth):
+        if not b.locals[l].lstrip().startswith('&'): return l
+        ds = [d for d in b.defs_of(l) if not (d[0] == 'stmt' and d[2]['dst']['p'])]
+        if len(ds) != 1: return None
+        k, bi, d = ds[0]
+        if k == 'call':
+            nm = T.strip_generics_tail(d['r'] or d['f'])
+            if re.search(r'::(deref|deref_mut|as_mut_slice|as_slice|as_mut|as_ref|borrow|borrow_mut)$', nm) and d['args'] and d['args'][0]['k'] in ('copy', 'move'): l = d['args'][0]['pl']['l']; continue
+            return None
+        rv = d['rv']
+        if rv['k'] == 'ref':
+            if [p for p in rv['pl']['p'] if p != '*']: return None
+            l = rv['pl']['l']; continue
+        if rv['k'] == 'use' and rv['ops'][0]['k'] in ('copy', 'move') and not rv['ops'][0]['pl']['p']: l = rv['ops'][0]['pl']['l']; continue
+        return None
+    return None
+
+
 def innermost_loop(b, bi):
     """(header, blocks) of the innermost natural loop containing block bi, or None"""
     best = None
@@ -1477,7 +1500,21 @@ def vartype_rules(ctx, fl, st, kinds, reach_of):
     ib = ctx.free_fn(R + '/anchor', 'qplib::parser::integer_to_binary')
     if ib is None: return
     ctx.fn(ib)
-    calls = [c for c in origin_calls(fl, agg_field_operand(st, 'var_types')) if c.path == ib.name]
+    # the calls of integer_to_binary that work on the value which becomes QplibFile.var_types: by value (`types = integer_to_binary(types, ..)`,
+    # the call produces the field) or in place (`integer_to_binary(&mut types, ..); types`, the call borrows a local that is moved into the field)
+    vt_op = agg_field_operand(st, 'var_types')
+    calls = [c for c in origin_calls(fl, vt_op) if c.path == ib.name]
+    held = set(); work = [vt_op['pl']['l']] if vt_op is not None and vt_op['k'] in ('copy', 'move') else []
+    while work:
+        l = work.pop()
+        if l in held: continue
+        held.add(l)
+        for k_, bb_, d_ in fl.defs_of(l):
+            if k_ == 'stmt' and not d_['dst']['p'] and d_['rv']['k'] == 'use' and d_['rv']['ops'][0]['k'] in ('copy', 'move') and not d_['rv']['ops'][0]['pl']['p']: work.append(d_['rv']['ops'][0]['pl']['l'])
+    for c in fl.calls:
+        if c.path != ib.name or c in calls: continue
+        for a in c.args:
+            if a['k'] in ('copy', 'move') and '&mut' in fl.locals[a['pl']['l']] and 'VarType' in fl.locals[a['pl']['l']] and borrowed_local(fl, a) in held: calls.append(c); break
     # (1) applied where the format can declare integer variables
     adt = kinds.get('ProbVarKind')
     applied = sorted(v['name'] for v in (adt or {}).get('variants', []) if any(c.bb in reach_of('ProbVarKind', v) for c in calls))
@@ -1532,7 +1569,8 @@ def vartype_rules(ctx, fl, st, kinds, reach_of):
                 args[param[role] - 1] = _Ref(_Cell(vec), []) if ib.locals[param[role]].lstrip().startswith('&') else vec
             ret = Probe(ctx).run(ib, args)
             rv_, _r = Probe._target(ret)
-            if not (isinstance(rv_, list) and rv_[0] == 'vec' and len(rv_[1]) == 2 and rv_[1][1] is cv): raise ProbeUndecided('the returned list is not the list of types that was passed in')
+            in_place = ib.locals[0].strip() == '()' and ib.locals[param['types']].lstrip().startswith('&mut')
+            if not in_place and not (isinstance(rv_, list) and rv_[0] == 'vec' and len(rv_[1]) == 2 and rv_[1][1] is cv): raise ProbeUndecided('the returned list is not the list of types that was passed in')
             if _full(decoy['types'].v) != ['enum', 'qplib::parser::VarType::Integer', []]: cv = _Cell(['enum', 'qplib::parser::VarType::<neighbouring entry changed>', []])
         else:
             # one pass of the loop with the item built from the iterator chain
@@ -1581,6 +1619,7 @@ COUNT_USES = {
     'range':   '`0..n` / `0..=n` (a Range aggregate / RangeInclusive::new): the number of entry lines read',
     'sized':   '`take(n)`, `repeat_n(x, n)`, `vec![x; n]`, `with_capacity(n)`, `resize(n, x)`',
     'field':   'QplibFile.num_vars / QplibFile.num_constraints',
+    'returned': 'the value a cursor method with an unsigned integer result returns (a count-reading helper)',
 }
 
 
@@ -1601,12 +1640,16 @@ def _count_use(b, c, limit=80):
         l = work.pop()
         if l in seen: continue
         seen.add(l)
+        # a helper whose result is an unsigned integer made from the parsed number (`fn next_count(..) -> Result<usize>`): a count by its type
+        if l == 0 and c.dst['l'] != 0 and re.search(r'(^|[<( ])(usize|u64|u32)([>,) ]|$)', b.locals[0]): return 'returned'
         for kind, bi, x in b.uses.get(l, ()):
             if kind == 'stmt':
                 if 'dst' not in x: continue
                 rv = x['rv']
                 if rv['k'] == 'agg' and re.search(r'ops::Range(Inclusive|To|ToInclusive)?$', rv['adt']): return 'range'
                 if rv['k'] in ('use', 'cast', 'ref') and not x['dst']['p']: work.append(x['dst']['l'])
+                # handed on inside Ok(..) / Some(..): the result of a helper (inlined by the normal form) that the caller unwraps with `?`
+                elif rv['k'] == 'agg' and _PAYLOAD.search(rv['adt']) and not x['dst']['p']: work.append(x['dst']['l'])
             elif kind == 'call':
                 if T.TRY_BRANCH.search(x.name) or T.ERR_ADAPTORS.search(x.name): work.append(x.dst['l']); continue
                 if re.search(r'RangeInclusive::<.*>::new$|RangeInclusive<.*>>::new$', T.strip_generics_tail(x.name)): return 'range'
@@ -2020,6 +2063,41 @@ def terms_rules(ctx):
         ctx.check(bool(find_aggregates(tq, 'v1::Quadratic')), R + '/quadratic/assembled-here', 'T-CARRY', tq.name, 'v1::Quadratic is not assembled in to_quadratic itself (a constructor may merge / drop entries)', tq.site())
 
 
+def int_value(ctx, b, e, depth=12):
+    """integer an expression tree evaluates to, when it is made of literals, named `const` items (crate constant table), enum constants
+    (`v1::Equality::X as i32`: the discriminant from the ADT table), casts and additions; None otherwise"""
+    if depth <= 0: return None
+    k = e[0]
+    if k == 'const':
+        v = e[1].strip()
+        if v.startswith('const '): v = v[6:]
+        if v in ctx.F.consts: v = ctx.F.consts[v][1]
+        m = re.match(r'^(-?[0-9]+)_?[iu](8|16|32|64|128|size)$', v)
+        if m: return int(m.group(1))
+        m = re.match(r'^(.*)::(\w+)::\{constant#\d+\}$', v) or re.match(r'^(.*)::(\w+)$', v)
+        if m:
+            adt = ctx.F.adts.get(m.group(1)) or ctx.F.adt(m.group(1))
+            for x in (adt or {}).get('variants', []):
+                if x['name'] == m.group(2): return x['discr']
+        return None
+    if k == 'cast': return int_value(ctx, b, e[2], depth - 1)
+    if k == 'bin' and e[1].replace('WithOverflow', '') == 'Add':
+        a, c = int_value(ctx, b, e[2], depth - 1), int_value(ctx, b, e[3], depth - 1)
+        return a + c if a is not None and c is not None else None
+    if k == 'proj' and e[1][0] == 'bin' and e[1][1].endswith('WithOverflow') and [f for a_, f in e[2]] == ['0']: return int_value(ctx, b, e[1], depth - 1)
+    return None
+
+
+def equality_is_le(ctx, b, op, LS):
+    """Constraint.equality is `<= 0`: the operand evaluates to the schema number of v1::Equality::LessThanOrEqualToZero -- written as the enum
+    cast, as a named constant holding it, or as the number"""
+    adt = ctx.F.adt('v1::Equality')
+    want = [x['discr'] for x in (adt or {}).get('variants', []) if x['name'] == 'LessThanOrEqualToZero']
+    v = int_value(ctx, b, T.expr(b, op, depth=12)) if op is not None else None
+    if v is not None and want: return v == want[0]
+    return op is not None and LS.slice_operand(b, op).has_const(r'Equality::LessThanOrEqualToZero')
+
+
 def sign_rules(ctx):
     """two-sided constraints c_l <= f(x) <= c_u.  Per side, inside the region guarded by `c != +-inf`:
        upper: f(x) - c_u <= 0   : constant -c_u, coefficients as they are, id i
@@ -2091,7 +2169,7 @@ def sign_rules(ctx):
                 add = any((x[0] == 'bin' and x[1].startswith('Add')) or (x[0] == 'call' and x[1] == 'add') for x in T.expr_walk(ix))
                 m = (QF, 'num_constraints') in T.expr_fields(ix)
                 ids.append('m+i' if add and m else ('i' if not add and not m else 'other'))
-                le.append(slice_op(ctx, cc, agg_field_operand(st2, 'equality')).has_const(r'Equality::LessThanOrEqualToZero') if cc is cc0 else LS.slice_operand(cc, agg_field_operand(st2, 'equality')).has_const(r'Equality::LessThanOrEqualToZero'))
+                le.append(equality_is_le(ctx, cc, agg_field_operand(st2, 'equality'), LS))
                 emitted.append(flows_to_return(cc, st2['dst']['l']))
             cands.setdefault(key, []).append((0 if ids else 1, len(reg), dict(constant=const_sign, negated=sorted(negated), ids=ids, le=le, emitted=emitted, site=cc.site(bi)), idx, other[0], bi))
     # a bound may be compared with its infinity more than once (`if c_u == inf && c_l == -inf { continue }` in front of the two sides): the side is
